@@ -6,23 +6,65 @@ BASE = json.load(open("/root/.vp/BASELINE.json"))["cmd"] if os.path.exists("/roo
 
 CHECKS = {
  "C01": ("exploration", "docprops", "bounded-exhaustive universe enumeration + scaling families, oracle: termination within a counted work budget",
-   "Generated-input search: every rank (thorough) or a seeded sample (quick) of finite document universes built from the Markdown-significant vocabulary and from single-edit neighbours of the suite's own documents is parsed under a deterministic work counter; failures are matched against exact committed rank sets so only new failing inputs alarm.",
+   "Generated-input search: every rank (thorough) or a seeded sample (quick) of finite document universes built from the Markdown-significant vocabulary, specification limits and single-edit neighbours of the suite's own documents is parsed under a deterministic work counter; failures are matched against exact committed rank sets so only new failing inputs alarm.",
    "Holds only on the explored universes/sizes; non-termination observable only as exceeding the work budget; sys.monitoring call counts trusted."),
  "C02": ("exploration", "docprops", "bounded-exhaustive universe enumeration, round-trip oracle (regenerated Markdown == source)",
-   "Round-trip oracle over the same universes: TransformToMarkdown(tokens) must equal the source character for character; known failing inputs are matched by exact rank and signature.",
+   "Round-trip oracle over the same universes: TransformToMarkdown(tokens) must equal the source character for character; known failing inputs are matched by exact rank, signature and hash of the wrong output.",
    "Documents that do not parse are skipped (C01). Explored universes only."),
  "C03": ("exploration", "docprops", "differential testing against an independent CommonMark implementation (vendored markdown-it-py) over enumerated universes",
-   "Differential oracle: normalised HTML of PyMarkdown vs. markdown-it-py (validated on all 652 CommonMark 0.31.2 examples by setup) over the universes; disagreements present on the pinned tree are matched by exact rank (adjudicated ones are findings, the others domain exclusions).",
+   "Differential oracle: normalised HTML of PyMarkdown vs. markdown-it-py (validated on all 652 CommonMark 0.31.2 examples by setup) over the universes; disagreements present on the pinned tree are matched by exact rank and output hash (adjudicated ones are findings, the others rank-exact domain exclusions).",
    "Trusted base: markdown-it-py 4.0.0 + html.parser normalisation; constructs where 0.29/0.31 differ or where the oracle deviates from the spec text are excluded by predicate and counted."),
  "C04": ("exploration", "docprops", "bounded-exhaustive universe enumeration, oracle: independent push-down automaton over the token stream",
    "Invariant oracle: an independent stack automaton written from the statement replays every token list (identity of start/end pairing, class discipline, nothing left open).",
    "'li' treated as scope-less marker; explored universes only."),
  "C05": ("exploration", "docprops", "bounded-exhaustive universe enumeration, oracle: source text at (line, column) is the element's opening text",
-   "Validity predicate over every positioned token: range, block order, and anchor text per token kind; all failure classes of a document form its signature so additional wrong positions in an already-failing document are still reported.",
+   "Validity predicate over every positioned token: range, block order, and anchor text per token kind; the classes and the exact (line, column) of every failing token form the document's signature, so any further wrong position in an already-failing document is still reported.",
    "Anchors only for token kinds the statement names; tabs accept raw or expanded column."),
+ "C06": ("exploration", "scanprops", "generated documents x documented rule configurations, oracle: independent two-sided reference of each rule's documented trigger over an independent parser's block view",
+   "Differential against reference implementations of 18 rules written from the rule documentation (MUST / MUST-NOT line sets, silent cases not judged), evaluated on the block structure reported by the independent parser, only on documents where C03 holds.",
+   "References encode a conservative reading of informal documentation; rules without a crisp documented trigger are not judged."),
  "C07": ("exploration", "scanprops", "generated documents x rule configurations through main(), oracle: report validity predicate + determinism",
    "Every sampled document is scanned twice under default / all-rules / two single-rule configurations through PyMarkdownLint.main; plugin failures, out-of-range, duplicate, unsorted or non-deterministic reports fail.",
    "Sub-lattices of the universes; single-rule configurations sampled by source hash."),
+ "C08": ("exploration", "scanprops", "metamorphic: fingerprint(render(d)) == fingerprint(render(fix(d))) through an independent renderer",
+   "Fix is run through main() under the default set, single fix-capable rules and pairs; a content fingerprint of the independent renderer's HTML, reduced only by the freedoms documented for the rules that reported, must be unchanged.",
+   "Trusted base markdown-it-py; freedoms listed in oracles/fingerprint.py; precondition C03 on the original."),
+ "C09": ("exploration", "scanprops", "metamorphic: fix(fix(d)) == fix(d), second run silent, no fixable failure left",
+   "Idempotence and completeness of fix under default / single / pair configurations chosen among the rules that fire on the document.",
+   "Fix runs that end in an application error are C15's; pairs sampled by hash."),
+ "C10": ("exploration", "scanprops", "file-system snapshot oracle over generated file sets, both return-code schemes",
+   "Hash snapshots of a private working directory and TMPDIR before/after fix, scan, list and stdin runs over 3-file sets: changed <=> announced <=> exit code, untouched when nothing fixable, nothing created or left.",
+   "File sets are 3 files with hash-chosen companions."),
+ "C11": ("exploration", "scanprops", "metamorphic: pragma insertion at generated line boundaries, oracle: shifted tokens / shifted failures minus exactly the named (line, rule)",
+   "A pragma line (both prefixes, ids in any case / aliases, next-line and num-lines, stacked pairs, malformed forms) is inserted into generated documents; token stream and failures must equal the shifted originals minus exactly what is named.",
+   "Pragma lines kept short and clean so no line rule fires on them; insertion only before existing lines."),
+ "C12": ("exploration", "scanprops", "algebraic law: failures(S) == multiset-union of failures({r}), all 46 rules alone + default/all/default-minus-k",
+   "Every rule is scanned alone on each sampled document and the union law is checked for the default set, all rules and default minus hashed rules.",
+   "md999 excluded; documents whose scan crashes are C07's."),
+ "C13": ("exploration", "histories", "history generation: every adjacency of a document pool in one invocation + Hypothesis rule-based state machine on one API object, oracle: per-file result equals the alone result",
+   "Sequences A B1 A B2 ... over a pool of rule resource documents and state probes (scan and fix), and a stateful Hypothesis machine over a long-lived PyMarkdownApi, compared with fresh single-file results.",
+   "Pool = suite resource documents + probes; thorough covers every ordered pair."),
+ "C14": ("exploration", "histories", "Hypothesis-generated runs with a recording plugin, oracle: life-cycle model (S T* L* C per file / per fix pass) + observer neutrality",
+   "A recorder plugin loaded with --add-plugin logs every callback; the log must equal the model built from the parser's own token stream and the file's lines, in every variant (callbacks overridden, fix level, enabled/disabled, with/without default rules).",
+   "Fix-mode intermediate contents not observable: with other rules enabled only the first pass is compared with the parser."),
+ "C15": ("fault_enumeration", "faults", "fault enumeration: exception at every callback invocation / parser call, bad files at every position, process kill and KeyboardInterrupt at every write-back step",
+   "Every invocation index of every callback kind of the fault-free run, every parser call, crash/undecodable documents at every position, and every step of the (patched, chunked) write-back in a child process are faulted; exit status, naming, isolation under --continue-on-error, file integrity and leftovers are judged.",
+   "Crash points are those of the Python-level write sequence; starting_new_file faults in fix mode cannot be attributed to a file."),
+ "C16": ("exploration", "scanprops", "differential between entry points (file, stdin, scan_string, scan_path, fix vs fix_string) + metamorphic over diagnostics options",
+   "The same document (in LF / CR-LF / no-final-newline / non-ASCII / Unicode-line-separator variants) must give the same failures and fixed text through every entry point, and diagnostics options must not change results.",
+   "API preconditions respected; real subprocess stdin only for CR-LF."),
+ "C17": ("exploration", "shell-models", "exhaustive enumeration of configuration layer combinations against a precedence model",
+   "All 405 layer x command-line combinations per rule naming, and every documented configuration item with valid / invalid values under lenient and strict modes in every layer, compared with a reference model of the documented precedence.",
+   "Item types/defaults read from the documentation tables; consistent naming within a configuration."),
+ "C18": ("exploration", "shell-models", "scenario table x enumerated file sets against an exit-code model, both schemes and every way of selecting them",
+   "Direct scenarios and all ordered file sets (size <= 3) over ten member kinds x scan/fix/list x continue-on-error x scheme x selection are run; the exit status must equal the documented table applied to the model's outcome category.",
+   "Outcomes the user guide does not define (plugins list without match etc.) are not judged."),
+ "C19": ("exploration", "shell-models", "Hypothesis-generated directory trees and argument lists against a reference model of file discovery",
+   "Trees, argument lists (files, directories, spellings, globs, missing, duplicates; every permutation), --recurse and --alternate-extensions are generated; list-files, scan, fix and the API must select exactly the model's set, once each, sorted, with the documented error outcomes.",
+   "Each-file-once judged on real paths; lowercase alternate extensions only."),
+ "C20": ("exploration", "docprops", "metamorphic over extension subsets + differential vs CommonMark with all extensions off + front-matter shift law",
+   "For hashed subsets S of the six extensions, parse_S(d) must equal parse_{S restricted to triggered extensions}(d); with everything off the HTML must match the independent CommonMark implementation even on extension syntax; a valid front-matter block must only shift the remaining parse.",
+   "Trigger predicates are syntactic over-approximations; YAML validity by PyYAML as documented."),
 }
 NOT_YET = {f"C{i:02d}" for i in range(1, 21)} - set(CHECKS)
 
